@@ -35,8 +35,11 @@ def _run_job(args):
     try:
         ex = symex.Explorer(job['fn'], job.get('params', {}), job['harness'],
                             max_paths=job.get('max_paths', 200000),
+                            # hard ceiling per job (quick 300 s / thorough 1800 s, VERIF_JOB_TIMEOUT overrides): on a tree where
+                            # a property is broken a path tree can explode; the job is then cut after having reported what it
+                            # found (NOT-EXHAUSTED) instead of running for hours
                             timeout_s=min(job.get('timeout_s', 1500 if tier == 'thorough' else 240),
-                                          float(os.environ.get('VERIF_JOB_TIMEOUT', '1e9'))),
+                                          float(os.environ.get('VERIF_JOB_TIMEOUT', '1800' if tier == 'thorough' else '300'))),
                             solver_timeout_ms=job.get('solver_timeout_ms', 20000))
         ex.run()
         st = ex.stats
